@@ -2041,8 +2041,14 @@ func (sa *Application) RemoveAllAllocations() []*Allocation {
 
 	// if an app doesn't have any allocations and the user doesn't have other applications,
 	// the user tracker is nonexistent. We don't want to decrease resource usage in this case.
-	if ugm.GetUserManager().GetUserTracker(sa.user.User) != nil && resources.IsZero(sa.pending) {
-		sa.decUserResourceUsage(resources.Add(sa.allocatedResource, sa.allocatedPlaceholder), true)
+	// With asks still pending the application stays tracked for the user, the usage of the released allocations
+	// must be removed in all cases.
+	if ugm.GetUserManager().GetUserTracker(sa.user.User) != nil {
+		released := resources.Add(sa.allocatedResource, sa.allocatedPlaceholder)
+		removeApp := resources.IsZero(sa.pending)
+		if removeApp || !resources.IsZero(released) {
+			sa.decUserResourceUsage(released, removeApp)
+		}
 	}
 	// cleanup allocated resource for app (placeholders and normal)
 	sa.allocatedResource = resources.NewResource()
